@@ -28,6 +28,7 @@ type wireEntry struct {
 }
 
 type rBroker struct {
+	grantCap  byte   // highest QoS the broker grants (2 = whatever was requested)
 	method    string // "P" deliver on PUBLISH, "R" deliver on PUBREL
 	subs      map[string]byte
 	subOrder  []string
@@ -38,7 +39,7 @@ type rBroker struct {
 }
 
 func newRBroker(method string) *rBroker {
-	return &rBroker{method: method, subs: map[string]byte{}, q2: map[uint16]bool{}, stash: map[uint16]int{}}
+	return &rBroker{method: method, subs: map[string]byte{}, q2: map[uint16]bool{}, stash: map[uint16]int{}, grantCap: 2}
 }
 
 func (b *rBroker) clearSession() {
@@ -65,6 +66,8 @@ type scenario struct {
 	states        []string
 	cbMismatch    []string // Closed callbacks whose error differs from Err()
 	refuseNext    bool     // the next dialled transport refuses the CONNECT write
+	deafDialer    bool     // the dialer ignores its context (configuration d1)
+	bornCancelled bool     // the next dialled transport belongs to an already cancelled first Connect
 	refuseIDStart uint32   // … and its id counter is set to this value at that moment
 	dialAt        []time.Time
 	endAt         map[int]time.Time
@@ -93,6 +96,7 @@ type sConn struct {
 	createdAt      time.Time
 	ackAt          time.Time
 	refuseConnect  bool // the write of CONNECT fails (scripted)
+	bornCancelled  bool // dialled for a Connect whose context was already cancelled
 	idStart        uint32
 }
 
@@ -184,6 +188,12 @@ func (c *sConn) Write(p []byte) (int, error) {
 	}
 	entry := wireEntry{pkt: pkt, conn: c.k, seq: s.seq, at: time.Now()}
 	s.seq++
+	if c.bornCancelled && pkt.Type == 0x10 {
+		s.wire = append(s.wire, entry)
+		c.cli.VerifSetIDLast(c.idStart)
+		c.answered = true // every later write is refused (see below)
+		return len(p), nil
+	}
 	if c.refuseConnect && pkt.Type == 0x10 {
 		// the attempt is logged like any CONNECT; the write fails and the transport is unusable from here on
 		s.wire = append(s.wire, entry)
@@ -289,8 +299,12 @@ func (s *scenario) process(c *sConn, p *SPkt, respond bool) {
 			if _, ok := b.subs[f]; !ok {
 				b.subOrder = append(b.subOrder, f)
 			}
-			b.subs[f] = p.QoSs[i]
-			codes = append(codes, p.QoSs[i])
+			granted := p.QoSs[i]
+			if granted > b.grantCap {
+				granted = b.grantCap // a broker may grant less than requested (MQTT-3.8.4-6)
+			}
+			b.subs[f] = granted
+			codes = append(codes, granted)
 			parts = append(parts, fmt.Sprintf("%s.%d", hexOrDash([]byte(f)), p.QoSs[i]))
 		}
 		reply(specSubAck(p.ID, codes))
@@ -330,14 +344,19 @@ func (d *sDialer) DialContext(ctx context.Context) (*mqtt.BaseClient, error) {
 	s.dialAt = append(s.dialAt, time.Now())
 	s.cond.Broadcast()
 	s.mu.Unlock()
+	var ctxDone <-chan struct{}
+	if !s.deafDialer {
+		ctxDone = ctx.Done() // a dialer like NoContextDialer does not look at its context
+	}
 	select {
 	case r := <-s.dialCh:
 		if !r.ok {
 			return nil, errors.New("scripted dial failure")
 		}
 		s.mu.Lock()
-		c := &sConn{sc: s, k: len(s.conns), createdAt: time.Now(), refuseConnect: s.refuseNext, idStart: s.refuseIDStart}
+		c := &sConn{sc: s, k: len(s.conns), createdAt: time.Now(), refuseConnect: s.refuseNext, idStart: s.refuseIDStart, bornCancelled: s.bornCancelled}
 		s.refuseNext = false
+		s.bornCancelled = false
 		k := c.k
 		var cli *mqtt.BaseClient
 		cli = &mqtt.BaseClient{Transport: c, ConnState: func(st mqtt.ConnState, err error) {
@@ -356,7 +375,7 @@ func (d *sDialer) DialContext(ctx context.Context) (*mqtt.BaseClient, error) {
 		s.cond.Broadcast()
 		s.mu.Unlock()
 		return cli, nil
-	case <-ctx.Done():
+	case <-ctxDone:
 		return nil, ctx.Err()
 	}
 }
@@ -416,6 +435,10 @@ type retryRun struct {
 	firstAcked                bool
 	started                   bool
 	startAt, discAt, cancelAt time.Time // zero if the event did not happen (cancelAt: only an effective cancellation)
+}
+
+func isAppEv(ev string) bool {
+	return strings.HasPrefix(ev, "pub:") || strings.HasPrefix(ev, "sub:") || strings.HasPrefix(ev, "unsub:")
 }
 
 func (r *retryRun) dialPending() bool {
@@ -492,6 +515,10 @@ func (r *retryRun) waitPlan(i int, want planPoint) {
 func runRetryScript(cfg, method, faultStr string, evs []string, plan []planPoint) *retryRun {
 	sc := &scenario{broker: newRBroker(method), dialCh: make(chan dialResult), cur: -1, msgConn: map[int]int{}, endAt: map[int]time.Time{}}
 	sc.cond = sync.NewCond(&sc.mu)
+	if strings.Contains(cfg, "g1") {
+		sc.broker.grantCap = 1
+	}
+	sc.deafDialer = strings.Contains(cfg, "d1")
 	if faultStr != "-" {
 		sc.faults = strings.Split(faultStr, ",")
 	}
@@ -548,7 +575,7 @@ func runRetryScript(cfg, method, faultStr string, evs []string, plan []planPoint
 		f := strings.Split(ev, ":")
 		switch f[0] {
 		case "start":
-			if r.cancelled {
+			if r.cancelled && !sc.deafDialer {
 				r.released++ // the one DialContext call of a Connect with a finished context returns by itself
 			}
 			r.started = true
@@ -626,6 +653,12 @@ func runRetryScript(cfg, method, faultStr string, evs []string, plan []planPoint
 			}
 			sc.mu.Lock()
 			r.idStart[len(sc.conns)] = uint32(atoi(f[1]))
+			if r.cancelled && sc.deafDialer && !r.firstAcked {
+				// the transport arrives after the Connect context was cancelled: CONNECT is written, Connect fails at
+				// once and the loop closes the client; the attempt counts as resolved from the CONNECT write on
+				sc.bornCancelled = true
+				sc.refuseIDStart = uint32(atoi(f[1]))
+			}
 			sc.mu.Unlock()
 			r.released++
 			select {
@@ -764,7 +797,7 @@ func runRetryScript(cfg, method, faultStr string, evs []string, plan []planPoint
 					r.cancelAt = time.Now()
 				}
 				connCancel()
-				if pending {
+				if pending && !sc.deafDialer {
 					r.released++ // that DialContext call has returned ctx.Err() by itself
 				}
 			}
@@ -791,6 +824,12 @@ func runRetryScript(cfg, method, faultStr string, evs []string, plan []planPoint
 					r.discAt = time.Now()
 				}
 			}
+		}
+		// burst mode (`b1`): consecutive application requests are submitted back to back, without waiting until the
+		// task goroutine has processed the previous one — several tasks are queued while one is in flight. The
+		// queue is FIFO, so the outcome must be the one the model computes for one-at-a-time submission.
+		if strings.Contains(cfg, "b1") && i+1 < len(evs) && isAppEv(ev) && isAppEv(evs[i+1]) {
+			continue
 		}
 		if i < len(plan) {
 			if plan[i].stuck {
